@@ -103,6 +103,20 @@ def make_pool():
     add("Hex", C.Hex(C.Int16ub), B, [5])
     add("Timelike-Mapping", C.Mapping(C.Byte, {"x": 1, "y": 2}), B, ["x", "z", 1])
     add("Error-in-Select", C.Select(C.Struct("a" / C.Byte, C.Check(this.a > 1)), C.Error), B, [dict(a=5), dict(a=0)])
+    # relative seeks inside a length-limited region (the result must not depend on the absolute offset the region starts at)
+    add("FixedSized(NullTerminated(consume=False))", C.FixedSized(6, C.Sequence(C.NullTerminated(C.GreedyBytes, consume=False), C.GreedyBytes)), B + [b"ab\x00cdef", b"\x00\x00abcd", b"abcdef"], [[b"ab", b"\x00cd"]])
+    add("Prefixed(Seek(-1,1))", C.Prefixed(C.Byte, C.Struct("a" / C.Bytes(2), C.Seek(-1, 1), "b" / C.Byte, "r" / C.GreedyBytes)), B + [b"\x04wxyz", b"\x02pq"], [dict(a=b"ab", b=1, r=b"")])
+    add("Struct(h,FixedSized(NullTerminated(consume=False)))", C.Struct("h" / C.Int16ub, "f" / C.FixedSized(4, C.Sequence(C.NullTerminated(C.GreedyBytes, consume=False), C.GreedyBytes)), "t" / C.Byte),
+        B + [b"\x01\x02a\x00bc\x09", b"\x01\x02\x00abc\x09"], [dict(h=1, f=[b"a", b"\x00b"], t=9)])
+    # per-call scratch state: a build with a list of the wrong length must not influence the next build
+    add("Slicing(Array)", C.Slicing(C.Array(4, C.Byte), 4, 1, 3, empty=0), B + [b"\x01\x02\x03\x04"], [[5, 6], [5, 6, 7], [5], [8, 9]])
+    add("Slicing(GreedyRange)", C.Slicing(C.GreedyRange(C.Byte), 4, 1, 3, empty=0), B, [[5, 6], [5, 6, 7], [], [8, 9]])
+    add("Indexing", C.Indexing(C.Array(4, C.Byte), 4, 2, empty=0), B + [b"\x01\x02\x03\x04"], [5, 300, 6])
+    # rotations that share a byte shift but not a group size; group and amount also from the keyword context
+    for amount, group in ((8, 2), (8, 4), (8, 3), (16, 4), (16, 6), (24, 4), (-8, 2), (-8, 4)):
+        add("Rotate(%d,%d)" % (amount, group), C.ProcessRotateLeft(amount, group, C.GreedyBytes), B + [bytes(range(1, 13)), bytes(range(20, 44))], [bytes(range(1, 13)), b"abcdefgh"])
+    add("Rotate(ctx)", C.ProcessRotateLeft(this._params.a, this._params.g, C.GreedyBytes), [bytes(range(1, 13)), b"abcdefgh", b"abc"], [bytes(range(1, 13))],
+        kws=({"a": 8, "g": 2}, {"a": 8, "g": 4}, {"a": 8, "g": 3}, {"a": 16, "g": 6}, {"a": 16, "g": 4}, {"a": 3, "g": 2}))
     # compiled instances share the interpreter objects' sub-constructs through linked callbacks
     for name in ("H", "E", "Struct(h/H,d/Bytes(h.n))", "RB1", "RB2", "RB3", "Array(2,H)", "Switch(this.t)", "Default/Const/Computed"):
         for (n2, d, pf, ins, vals, kws) in list(pool):
